@@ -141,6 +141,29 @@ type observedDet struct {
 type cfgT struct {
 	Dets []script `json:"detectors"`
 	Inv  int      `json:"inventory_mask"`
+	// ExtraMode: 0 every finding has its own Extra text; 1 all findings have the same (empty) Extra and
+	// differ in their target location; 2 all findings of one advisory are field-for-field identical
+	ExtraMode int `json:"extra_mode,omitempty"`
+}
+
+// finding builds finding j of detector i under the configuration's extra mode.
+func (c cfgT) finding(kind, i, j int) *detector.Finding {
+	switch c.ExtraMode {
+	case 1:
+		f := mkFinding(kind, "")
+		f.Target = &detector.TargetDetails{Location: []string{fmt.Sprintf("loc-d%d-%d", i, j)}}
+		return f
+	case 2:
+		return mkFinding(kind, "")
+	}
+	return mkFinding(kind, fmt.Sprintf("d%d-%d", i, j))
+}
+
+func locOf(f *detector.Finding) string {
+	if f.Target == nil {
+		return ""
+	}
+	return strings.Join(f.Target.Location, ",")
 }
 
 func pkgStr(ps []*extractor.Package) []string {
@@ -190,7 +213,7 @@ func runCase(c cfgT) (key, detail string) {
 			o.missing = pkgStr(append(px.GetSpecific("n1", "t2"), px.GetAllOfType("t3")...))
 			var fs []*detector.Finding
 			for j, f := range s.Findings {
-				fs = append(fs, mkFinding(f, fmt.Sprintf("d%d-%d", i, j)))
+				fs = append(fs, c.finding(f, i, j))
 			}
 			var err error
 			if s.Err {
@@ -245,7 +268,7 @@ func runCase(c cfgT) (key, detail string) {
 	var wantFindings []string
 	for i, s := range c.Dets {
 		for j, f := range s.Findings {
-			fd := mkFinding(f, fmt.Sprintf("d%d-%d", i, j))
+			fd := c.finding(f, i, j)
 			if fd.Adv == nil || fd.Adv.ID == nil {
 				invalid = true
 				continue
@@ -258,7 +281,7 @@ func runCase(c cfgT) (key, detail string) {
 				invalid = true
 			}
 			seen[fd.Adv.ID.Reference] = body
-			wantFindings = append(wantFindings, fmt.Sprintf("%s|%s|%s|det-%d", fd.Adv.ID.Reference, fd.Adv.Title, fd.Extra, i))
+			wantFindings = append(wantFindings, fmt.Sprintf("%s|%s|%s|det-%d|%s", fd.Adv.ID.Reference, fd.Adv.Title, fd.Extra, i, locOf(fd)))
 		}
 	}
 	var gotFindings []string
@@ -270,7 +293,7 @@ func runCase(c cfgT) (key, detail string) {
 				ref = f.Adv.ID.Reference
 			}
 		}
-		gotFindings = append(gotFindings, fmt.Sprintf("%s|%s|%s|%s", ref, title, f.Extra, strings.Join(f.Detectors, "+")))
+		gotFindings = append(gotFindings, fmt.Sprintf("%s|%s|%s|%s|%s", ref, title, f.Extra, strings.Join(f.Detectors, "+"), locOf(f)))
 	}
 	failed := res.Status.Status == plugin.ScanStatusFailed
 	if invalid {
@@ -289,6 +312,24 @@ func runCase(c cfgT) (key, detail string) {
 			}
 			return pa[2] < pb[2]
 		})
+		if c.ExtraMode != 0 {
+			// findings that compare equal under the documented order (reference, extra) may come in any
+			// relative order: demand the documented order on the keys and the same multiset
+			keys := func(xs []string) []string {
+				var out []string
+				for _, x := range xs {
+					p := strings.Split(x, "|")
+					out = append(out, p[0]+"|"+p[2])
+				}
+				return out
+			}
+			if !eq(keys(gotFindings), keys(wantFindings)) {
+				return "findings-differ", fmt.Sprintf("got %v want %v", gotFindings, wantFindings)
+			}
+			gotFindings, wantFindings = append([]string{}, gotFindings...), append([]string{}, wantFindings...)
+			sort.Strings(gotFindings)
+			sort.Strings(wantFindings)
+		}
 		if !eq(gotFindings, wantFindings) {
 			return "findings-differ", fmt.Sprintf("got %v want %v", gotFindings, wantFindings)
 		}
@@ -368,7 +409,20 @@ func main() {
 				nf += len(ds[i].Findings)
 			}
 			for _, inv := range pl.invs {
-				c := cfgT{ds, inv}
+				c := cfgT{Dets: ds, Inv: inv}
+				if nf >= 2 && (inv == 0 || inv == 15) {
+					// the same detector lists with findings that share their Extra text (and so compare
+					// equal in the result order): every one of them must still be reported
+					for em := 1; em <= 2; em++ {
+						ce := cfgT{Dets: ds, Inv: inv, ExtraMode: em}
+						key, detail := runCase(ce)
+						r.Evals.Add(1)
+						r.Nontrivial.Add(1)
+						if key != "" {
+							r.Violation(key, fmt.Sprintf("detectors %v inventory mask %04b extra mode %d: %s", ds, inv, em, detail), ce)
+						}
+					}
+				}
 				key, detail := runCase(c)
 				r.Evals.Add(1)
 				if nf >= 2 && inv != 0 {
@@ -386,5 +440,5 @@ func main() {
 		}
 		r.Set(fmt.Sprintf("detector_lists_of_length_%d", pl.k), total)
 	}
-	r.Finish("every ordered list of 0..2 detectors over all 86 scripts (finding lists of length <=2 over {X/body1, X/body2 (other title), X/body1 with another nested CVSS score, Y/body1, no advisory, no advisory id} x {ok, error}) x all 16 inventories (2 packages from a filesystem extractor, 2 from a standalone extractor, one without PURL, two versions of one name); lists of 3 over the 14 short scripts (thorough: all 86 scripts x 3 inventories; lists of 4 over short scripts); real Scanner.Scan vs reference model of the detector run", complete)
+	r.Finish("every ordered list of 0..2 detectors over all 86 scripts (finding lists of length <=2 over {X/body1, X/body2 (other title), X/body1 with another nested CVSS score, Y/body1, no advisory, no advisory id} x {ok, error}) x all 16 inventories (2 packages from a filesystem extractor, 2 from a standalone extractor, one without PURL, two versions of one name); lists of 3 over the 14 short scripts (thorough: all 86 scripts x 3 inventories; lists of 4 over short scripts); for lists with >=2 findings and the empty/full inventory also with findings that all carry the same Extra text (differing only in target location, or identical); real Scanner.Scan vs reference model of the detector run", complete)
 }
